@@ -42,6 +42,8 @@
                       tag equal to a variant field's wire name, adjacent tag = content,
                       deny_unknown_fields with flatten
      serde_default    structs.rs:379-407: Optional => `#[serde(default)]` needs Default on the field type
+     skip_path        structs.rs:384-425 vs type_entry.rs type_ident: `skip_serializing_if = "P::f"` names a
+                      function of the field's rendered type (C14's skip_path / type_ident models)  (E0308)
      defaults         defaults.rs default_fn / value.rs output_value: every Default(v) property
                       renders (no panic) to an expression typed at the property type (C06's model)
      prelude_*        templates mention `Default::default()` (type_entry.rs:1159,1252; value.rs:408),
@@ -50,7 +52,7 @@
 *)
 From Coq Require Import String Ascii NArith List Bool.
 From Typify Require Import Base.Json IR.TypeIR Algo.Heck Algo.HasImpl.
-From Typify Require Algo.Sanitize Algo.Cycles Algo.Defaults Algo.Value.
+From Typify Require Algo.Sanitize Algo.Cycles Algo.Defaults Algo.Value Algo.SettingsModel.
 Import ListNotations.
 Open Scope string_scope.
 Open Scope N_scope.
@@ -458,6 +460,35 @@ Definition serde_default_det (T : space) (d : details) : bool :=
 
 Definition serde_default_ok (T : space) : bool := forallb (serde_default_det T) (named_dets T).
 
+(* `#[serde(skip_serializing_if = "P::f")]` is chosen by structs.rs generate_serde_attr (:384-425, through one
+   Box), the field type by type_entry.rs type_ident (:1680-1830): two sites with the same two-part test for
+   `::serde_json::Map` (key is String AND value is JsonValue).  The path must name a function of the field's
+   own rendered type.  Both sites are C14's models [SettingsModel.skip_path] / [SettingsModel.type_ident]. (E0308) *)
+Fixpoint type_head (ty : ustring) : ustring :=       (* the path before the generic arguments *)
+  match ty with
+  | [] => []
+  | c :: r => if c =? 60 then [] else c :: type_head r
+  end.
+
+Definition unboxed_id (T : space) (i : id) : id :=
+  match get_det T i with
+  | Some (DBox t) => match get_det T t with Some _ => t | None => i end
+  | _ => i
+  end.
+
+Definition skip_path_prop_ok (T : space) (p : prop) : bool :=
+  match SettingsModel.skip_path T p with
+  | [] => true
+  | path =>
+      match SettingsModel.type_ident T (fuel_of T) (unboxed_id T (p_ty p)) with
+      | Some ty => uprefix (type_head ty ++ us "::")%list path
+      | None => true
+      end
+  end.
+
+Definition skip_path_ok (T : space) : bool :=
+  forallb (fun d => forallb (fun np => forallb (skip_path_prop_ok T) (snd np)) (props_of_det d)) (named_dets T).
+
 (* ------------------------------------------------------------------ (e) default expressions *)
 (* does expression node `EVarTuple ty var _` construct a variant whose payload is a one-element tuple? *)
 Definition tuple1_variant (T : space) (ty var : ustring) : bool :=
@@ -618,12 +649,12 @@ Definition prelude_result_ok (T : space) : bool :=
 Inductive conjunct :=
 | CItems | CModnames | CDefaultFns | CFields | CVariants | CIdents | CUntaggedSimple
 | CFromVariants | CFromTuple1 | CDerefCycle | CTryFromString | CAcyclic | CDeriveBounds
-| CSerdeRules | CSerdeDefault | CDefaults | CDefaultTuple1 | CPreludeDefault | CPreludeVec | CPreludeResult.
+| CSerdeRules | CSerdeDefault | CSkipPath | CDefaults | CDefaultTuple1 | CPreludeDefault | CPreludeVec | CPreludeResult.
 
 Definition all_conjuncts : list conjunct :=
   [CItems; CModnames; CDefaultFns; CFields; CVariants; CIdents; CUntaggedSimple;
    CFromVariants; CFromTuple1; CDerefCycle; CTryFromString; CAcyclic; CDeriveBounds;
-   CSerdeRules; CSerdeDefault; CDefaults; CDefaultTuple1; CPreludeDefault; CPreludeVec; CPreludeResult].
+   CSerdeRules; CSerdeDefault; CSkipPath; CDefaults; CDefaultTuple1; CPreludeDefault; CPreludeVec; CPreludeResult].
 
 Definition holds (cls : CharClasses) (T : space) (c : conjunct) : bool :=
   match c with
@@ -642,6 +673,7 @@ Definition holds (cls : CharClasses) (T : space) (c : conjunct) : bool :=
   | CDeriveBounds => derive_bounds_ok T
   | CSerdeRules => serde_rules_ok T
   | CSerdeDefault => serde_default_ok T
+  | CSkipPath => skip_path_ok T
   | CDefaults => defaults_ok T
   | CDefaultTuple1 => default_tuple1_ok T
   | CPreludeDefault => prelude_default_ok T
@@ -663,7 +695,7 @@ Definition show_conjunct (c : conjunct) : string :=
   | CVariants => "variants" | CIdents => "idents" | CUntaggedSimple => "untagged_simple"
   | CFromVariants => "from_variants" | CFromTuple1 => "from_tuple1" | CDerefCycle => "deref_cycle"
   | CTryFromString => "tryfrom_string" | CAcyclic => "acyclic" | CDeriveBounds => "derive_bounds"
-  | CSerdeRules => "serde_rules" | CSerdeDefault => "serde_default" | CDefaults => "defaults"
+  | CSerdeRules => "serde_rules" | CSerdeDefault => "serde_default" | CSkipPath => "skip_path" | CDefaults => "defaults"
   | CDefaultTuple1 => "default_tuple1"
   | CPreludeDefault => "prelude_default" | CPreludeVec => "prelude_vec" | CPreludeResult => "prelude_result"
   end.
